@@ -29,10 +29,11 @@ func init() {
 			{Name: "concurrent-sctp", Weight: 2, Bubble: true, Run: c07Sctp},
 			{Name: "retry-conn", Weight: 2, Bubble: true, Run: c07RetryConn},
 			{Name: "retry-write-timeout", Weight: 1, Bubble: true, Run: c07RetryTimeout},
+			{Name: "slow-peer-with-read-timeout", Weight: 1, Bubble: true, Run: c07ReadTimeoutStall},
 			{Name: "sweep-retry", Run: c07Sweep, SweepN: c07SweepN, QuickSweep: true, Exhaustive: true,
 				SweepNote: "every sequence of up to 3 outcomes over {accept 0, 1, half, all} x {temporary, permanent, plain error} (then success), x retry budgets 0..3 x {io.Writer, MultistreamWriter}: 15 080 cases"},
 		},
-		MustProbes: []string{"writer-blocked-on-lock", "stall-with-queued-writers", "retry-resumed", "sctp-concurrent-writes", "sctp-write-stall", "retry-after-write-timeout", "write-timeout", "sctp-retry-while-reader-elsewhere"},
+		MustProbes: []string{"writer-blocked-on-lock", "stall-with-queued-writers", "retry-resumed", "sctp-concurrent-writes", "sctp-write-stall", "retry-after-write-timeout", "write-timeout", "sctp-retry-while-reader-elsewhere", "answer-stalled-past-read-timeout"},
 	})
 }
 
@@ -976,4 +977,84 @@ func c07RetryTimeout(e *Env) {
 		return
 	}
 	e.Probe("retry-after-write-timeout")
+}
+
+// c07ReadTimeoutStall: a Server with a ReadTimeout (and no WriteTimeout). A handler's answer
+// stalls in the transport for longer than the read timeout: reads are not writes, the answer
+// must still reach the peer whole once the peer reads again.
+func c07ReadTimeoutStall(e *Env) {
+	t := e.T
+	e.TrustWait = true
+	T := []time.Duration{80 * time.Millisecond, time.Second, 30 * time.Second}[t.Draw(3)]
+	sc := newSimConn(e, "c0", drawAddr(t, 3868), drawAddr(t, 40000))
+	lis := newSimListener(e)
+	mux := diam.NewServeMux()
+	size := c07Sizes(t)
+	payload := marker(0, 0, size, 9)
+	retries := t.Range(0, 2)
+	type res struct {
+		n   int64
+		err error
+	}
+	done := make(chan res, 1)
+	mux.HandleFunc("ALL", func(c diam.Conn, m *diam.Message) {
+		a := m.Answer(2001)
+		a.NewAVP(avpSimOctets, 0, 0, datatype.OctetString(payload))
+		var r res
+		if retries > 0 {
+			r.n, r.err = a.WriteToWithRetry(c, uint(retries))
+		} else {
+			r.n, r.err = a.WriteTo(c)
+		}
+		done <- r
+	})
+	srv := &diam.Server{Handler: mux, Dict: simDict(), ReadTimeout: T}
+	go srv.Serve(lis)
+	lis.Connect(sc)
+	defer func() {
+		sc.Resume()
+		sc.EndRead(io.EOF, false)
+		lis.Close()
+		e.Quiesce()
+	}()
+	e.Quiesce()
+	// the connection is idle for a part of the read timeout, then the request arrives
+	idle := []time.Duration{0, T / 4, T / 2, T - T/10}[t.Draw(4)]
+	if idle > 0 {
+		e.Advance(idle)
+		e.Quiesce()
+	}
+	req := RefMsg{Cmd: 900, Flags: 0x80, HbH: 0x1234, E2E: 0x5678, AVPs: []RefAVP{{Code: avpSimOctets, Data: []byte("ping")}}}
+	acc := t.Range(0, 200)
+	sc.ArmWriteFault(&WriteFault{Kind: "stall", After: acc})
+	sc.Deliver(req.Bytes())
+	e.Quiesce()
+	if !sc.Stalled() {
+		e.Harness("the answer write did not reach the transport")
+	}
+	stall := []time.Duration{T / 2, T + T/2, 3 * T}[t.Draw(3)]
+	e.Act("slow-peer", "T=%v idle=%v stall=%v answer=%dB accepted-before-stall=%d retries=%d", T, idle, stall, size, acc, retries)
+	e.Advance(stall)
+	e.Quiesce()
+	e.NonTrivial()
+	if idle+stall > T {
+		e.Probe("answer-stalled-past-read-timeout")
+	}
+	sc.Resume()
+	e.Quiesce()
+	var r res
+	select {
+	case r = <-done:
+	default:
+		e.Fail("C07/write-never-returned/read-timeout", "the peer read again and the handler's answer write did not return")
+		return
+	}
+	rm, err := refParse(sc.Written())
+	if r.err != nil || err != nil || rm.HbH != req.HbH || rm.find(avpSimOctets) == nil || !bytes.Equal(rm.find(avpSimOctets).Data, payload) {
+		e.Fail("C07/torn-message/read-timeout", "Server.ReadTimeout=%v, no WriteTimeout: the answer stalled in the transport for %v (connection idle %v before the request) and did not reach the peer whole: %d bytes on the wire, n=%d err=%v", T, stall, idle, len(sc.Written()), r.n, r.err)
+		return
+	}
+	if sc.Closed() {
+		e.Fail("C07/closed-after-slow-write", "the answer went out whole after the stall, yet the library closed the connection")
+	}
 }
